@@ -78,6 +78,12 @@ DriftF(e, r) ==
       \cup (IF p.cmp \in {"state", "both"} /\ ~entOk THEN {"B.fentry"} ELSE {})
       \cup (IF p.cmp \in {"state", "both"} /\ ~fatOk THEN {"B.ftable"} ELSE {})
 
+(* ---------------- behaviours of AliasGen: the alias the library gave the entry created last ---------------- *)
+DriftA(e, r) ==
+   LET a == e.tag.alias
+       hit == \E k \in 1..Len(r.dirs) : LET sl == r.dirs[k].sl IN Len(sl) > 0 /\ sl[Len(sl)].t = "S" /\ sl[Len(sl)].n = a
+   IN IF e.r.k = "ok" /\ hit THEN {} ELSE {"B.alias"}
+
 Init == l = 1 /\ raw = [ok |-> FALSE]
 Next ==
    /\ l <= Len(Rec)
@@ -85,7 +91,7 @@ Next ==
    /\ LET e == Rec[l]
           r == IF Has(e, "raw") THEN e.raw ELSE raw
       IN /\ raw' = r
-         /\ \A t \in (IF Has(e, "tag") /\ Has(e.tag, "cell") THEN DriftF(e, r) ELSE Drift(e, r)) : PrintT(<<"NOTE", t, e.pid, e.i, e.op>>)
+         /\ \A t \in (IF Has(e, "tag") /\ Has(e.tag, "alias") THEN DriftA(e, r) ELSE IF Has(e, "tag") /\ Has(e.tag, "cell") THEN DriftF(e, r) ELSE Drift(e, r)) : PrintT(<<"NOTE", t, e.pid, e.i, e.op>>)
          /\ (Has(e, "tag") => PrintT(<<"INFO", "compared", e.pid, e.i, e.op>>))
 Spec == Init /\ [][Next]_<<l, raw>>
 TraceAccepted == TLCGet("stats").diameter = Len(Rec) + 1
